@@ -1,4 +1,5 @@
 import Bmc.Proofs.C06
+import Bmc.Proofs.ApiWrappers
 import Bmc.Proofs.GenEnc.TranslatedOk
 import Bmc.Proofs.GenEnc.GetSensorReadingReq
 import Bmc.Proofs.GenEnc.GetDCMICapabilitiesInfoReq
@@ -45,6 +46,9 @@ import Bmc.Proofs.GenEnc.V2Session
 #print axioms Bmc.Proofs.C06.powerreading_normal_parses
 #print axioms Bmc.Proofs.C06.powerreading_enhanced_parses
 #print axioms Bmc.Proofs.C06.dcmisensorinfo_parses
+#print axioms Bmc.Proofs.ApiWrappers.api_wrappers
+#print axioms Bmc.Proofs.ApiWrappers.api_other_senders
+#print axioms Bmc.Proofs.ApiWrappers.api_cmd_constructors
 #print axioms Bmc.Proofs.GenEnc.translated_ok
 #print axioms Bmc.Proofs.GenEnc.uninterpreted_ok
 #print axioms Bmc.Proofs.GenEnc.GetSensorReadingReq_enc_eq
